@@ -7,7 +7,11 @@
  *
  * Anchors (independent constants): 1970-01-01 is a Thursday with Unix day 0,
  * Julian day number 2440587.5 (JDN at noon 2440588), Matlab datenum 719529,
- * Lilian day 141428.
+ * Lilian day 141427 in the convention dateutils documents ("whole solar days
+ * since ... 15 Oct 1582", lib/date-core.h and info/dateutils.texi, pinned by
+ * test/dconv.093/094/111..114): 1582-10-15 is day 0.  IBM's Lilian date counts
+ * that day as 1 (141428); the property leaves the epoch convention to the
+ * documentation, so the documented one is the oracle (DESIGN.md, Corrections).
  *
  * rc_selfcheck() compares the successor machine with a second, differently
  * written formulation (year-length sums, Thursday walk) and aborts with exit
@@ -64,7 +68,7 @@ rc_mlen(int y, int m)
 static int RC_RD_1970 = -1;
 
 static inline int64_t rc_unix_days(int rd) { return (int64_t)rd - RC_RD_1970; }
-static inline int64_t rc_ldn(int rd) { return rc_unix_days(rd) + 141428; }
+static inline int64_t rc_ldn(int rd) { return rc_unix_days(rd) + 141427; }
 static inline int64_t rc_mdn(int rd) { return rc_unix_days(rd) + 719529; }
 /* Julian day number of the civil day (the one beginning at the preceding noon .5):
  * dateutils prints the JDN of 00:00 UTC, i.e. <integer>.5 */
@@ -305,14 +309,14 @@ rc_selfcheck(void)
 		}
 	}
 	/* anchors for the day numbers */
-	if (rc_ldn(RC_RD_1970) != 141428 || rc_mdn(RC_RD_1970) != 719529 ||
+	if (rc_ldn(RC_RD_1970) != 141427 || rc_mdn(RC_RD_1970) != 719529 ||
 	    rc_jdn(RC_RD_1970) != 2440587.5) {
 		rc_die("day number anchors", RC_RD_1970);
 	}
-	/* Lilian day 1 is 1582-10-15, which is before our range; cross-check:
+	/* Lilian day 0 (documented convention) is 1582-10-15, before our range; cross-check:
 	 * 78 days to 1583-01-01, the 18 years 1583..1600 have 5 leap years
-	 * (1584 88 92 96 1600): 18*365+5 = 6575; 1601-01-01 is day 1+78+6575 */
-	if (rc_ldn(0) != 6654) {
+	 * (1584 88 92 96 1600): 18*365+5 = 6575; 1601-01-01 is day 78+6575 */
+	if (rc_ldn(0) != 6653) {
 		rc_die("Lilian day of 1601-01-01", 0);
 	}
 	return;
